@@ -1095,7 +1095,14 @@ def _fresh(prog):
     tpl = getattr(prog, "_replay_template", None)
     if tpl is None:
         w = World(prog)
-        tpl = prog._replay_template = (w,) + tuple(w.build())
+        try:
+            tpl = prog._replay_template = (w,) + tuple(w.build())
+        except EvalRaise as exc:
+            raise AnalysisError(f"C03.replay: building the stand-in model raises {exc.exc_type}")
+        except Unknown as exc:
+            raise AnalysisError(f"C03.replay: the stand-in model cannot be built: {exc}")
+        except (KeyError, AttributeError) as exc:
+            raise AnalysisError(f"C03.replay: the stand-in model cannot be built: the model as built does not hold {exc}")
     w, m, h = tpl
     m2, h2 = _c.deepcopy((m, h))
     return w, m2, h2
